@@ -37,6 +37,8 @@ CONSTANTS Sets,     \* row sets driven: {"server", "special"} or {"library"}
                     \*   "expired"  m1 / k1 / d1 past their expiry but still stored
                     \*   "revoked"  m1 revoked, k1 revoked
                     \*   "inactive" m1 and d1 switched to status inactive
+                    \*   "migrated" a history that re-owns: CloudControl.MigrateClientMappings(A, C) made C the listen
+                    \*              client of A's mappings (m1, mz); A's per-client index still names them
                     \* (k0, the code that created m1, is always there as the "already activated" code)
           Fixes,    \* see above
           MaxCmds,  \* commands on c1
@@ -53,23 +55,28 @@ VARIABLES cn,     \* c1: [auth, typ, reg, pend (challenge pending for whom), fai
           ctl,    \* client -> "v" (its own control connection) | "c1": who holds the client-id index entry
           st,     \* store: [wv, m1, m0, mz, m2, k1by, gen, d1, d2, tr]
           ncmd,
+          primed, \* the command <<type, object>> another client just sent with the command id the actor will reuse ("none")
           log,    \* ghost: effects [ty, auth, e] of the latest command (the invariants are evaluated after every command)
           outs,   \* ghost: [ty, auth, out] of the latest command
           hist
-vars == <<cn, ctl, st, ncmd, log, outs, hist>>
+vars == <<cn, ctl, st, ncmd, primed, log, outs, hist>>
 \* hist is not in the view: every authentication state of c1 is explored once, with the handshake prefix that reached it first
 \* (the handshake part of the state space is finite without a bound on the number of messages)
-view == <<cn, ctl, st, ncmd, log, outs>>
+view == <<cn, ctl, st, ncmd, primed, log, outs>>
 
 \* ------------------------------------------------------------------------------------------
 \* the store
 Present(s)    == (IF s.m1 THEN {"m1"} ELSE {}) \cup (IF s.m2 # None THEN {"m2"} ELSE {})
                  \cup (IF s.m0 THEN {"m0"} ELSE {}) \cup (IF s.mz THEN {"mz"} ELSE {})
 \* ListenClientID / TargetClientID as stored; "none" = client id 0 - the same value an unauthenticated connection has
-Listen(s, m)  == CASE m = "m1" -> "A" [] m = "mz" -> "A" [] m = "m0" -> None [] OTHER -> s.m2
+Owner1(s)     == IF s.wv = "migrated" THEN "C" ELSE "A"
+Listen(s, m)  == CASE m = "m1" -> Owner1(s) [] m = "mz" -> Owner1(s) [] m = "m0" -> None [] OTHER -> s.m2
 Target(s, m)  == IF m = "mz" THEN None ELSE "B"
 Parties(s, m) == {Listen(s, m), Target(s, m)} \ {None}
 MapsOf(s, a)  == {m \in Present(s) : a \in Parties(s, m)}
+\* the per-client index the list commands start from: after the migration it still files m1 / mz under A, not under C
+Indexed(s, a) == {m \in Present(s) : IF s.wv = "migrated" /\ m \in {"m1", "mz"} THEN a \in {"A", Target(s, m)} ELSE a \in Parties(s, m)}
+Listed(s, a)  == Indexed(s, a) \cap MapsOf(s, a)
 CodesOf(s, a) == (IF a = "B" THEN {"k1"} ELSE {}) \cup (IF a \in s.gen THEN {"g" \o a} ELSE {})
 Doms(s)       == (IF s.d1 THEN {"d1"} ELSE {}) \cup (IF s.d2 # None THEN {"d2"} ELSE {})
 DomOwner(s, d) == IF d = "d1" THEN "B" ELSE s.d2
@@ -88,10 +95,19 @@ Base(ty) == CASE ty = "SOCKS5TunnelRequestCmd:resp" -> "SOCKS5TunnelRequestCmd"
               [] OTHER -> ty
 
 \* a = ControlConnection.ClientID of c1 ("none" = 0), rg = a ControlConnection exists for c1
-Outcome(s, a, rg, ty0, obj) ==
+\* rows whose handler reads the named object's main record for its party check; flt = "read1": that read fails once
+FaultRows == {"MappingGet", "MappingDelete", "HTTPDomainDelete", "ConnectionCodeActivate"}
+Stored(s, obj) == obj \in Present(s) \cup Doms(s) \cup {"k1", "k0"}
+
+Outcome(s, a, rg, ty0, obj, flt) ==
   LET ty == Base(ty0) IN
-  CASE ty \in {"ConfigGet", "MappingList"} ->
-         IF a = None THEN Fail(s) ELSE R("ok", {E("ret", m, Parties(s, m), a, None) : m \in MapsOf(s, a)}, s)
+  CASE flt = "read1" /\ ty \in FaultRows /\ Stored(s, obj) /\ a # None -> Fail(s)   \* unreadable record: no party check possible, refused
+    [] flt = "read1" /\ ty \in FaultRows /\ a = None /\ ty = "HTTPDomainDelete" /\ ~Fixed("domainAuth") /\ Stored(s, obj) -> Fail(s)
+    [] ty \in {"ConfigGet", "MappingList"} ->
+         \* MappingList: obj is the direction argument ("none" = both)
+         IF a = None THEN Fail(s)
+         ELSE R("ok", {E("ret", m, Parties(s, m), a, None) :
+                         m \in {x \in Listed(s, a) : CASE obj = "inbound" -> Target(s, x) = a [] obj = "outbound" -> Listen(s, x) = a [] OTHER -> TRUE}}, s)
     [] ty = "ConnectionCodeGenerate" ->
          IF a = None THEN Fail(s) ELSE R("ok", {E("add", "g" \o a, {a}, a, None)}, [s EXCEPT !.gen = @ \cup {a}])
     [] ty = "ConnectionCodeList" ->
@@ -141,7 +157,8 @@ Outcome(s, a, rg, ty0, obj) ==
          THEN (IF Fixed("dnsAuth") /\ a = None THEN Fail(s)
                ELSE R(IF rg THEN "ok" ELSE "fail",                                        \* the answer is relayed only to a registered connection
                       {E("deliv", "dns", {Victim(a)}, IF Fixed("dnsAuth") THEN a ELSE NoId, Victim(a))}, s))  \* deviation: target taken from the packet, caller never looked at
-         ELSE (IF a = None \/ {m \in MapsOf(s, a) : m = "m1" /\ s.wv \notin {"inactive", "revoked"}} = {} THEN Fail(s)   \* default target: an ACTIVE socks mapping (revoking makes it inactive)
+         \* (taken from the caller's index without looking at the parties: after the migration A still resolves through m1)
+         ELSE (IF a = None \/ {m \in Indexed(s, a) : m = "m1" /\ s.wv \notin {"inactive", "revoked"}} = {} THEN Fail(s)   \* default target: an ACTIVE socks mapping (revoking makes it inactive)
                ELSE R("ok", {E("deliv", "dns", {"B"}, a, "B")}, s))                       \* default target: target client of the caller's own mapping
     [] ty = "SendNotifyToClient" ->
          IF a = None /\ Fixed("notifyAuth") THEN Fail(s)
@@ -165,6 +182,7 @@ PTs(t) == IF IsResp(t) THEN {"resp"}
 ObjsFor(s, t0) == LET t == Base(t0) IN
   CASE t \in {"MappingGet", "MappingDelete", "SOCKS5TunnelRequestCmd", "TunnelTrafficReport"} -> Present(s) \cup {"m1", "absent"}
     [] t = "ConnectionCodeActivate" -> {"k1", "k0", "absent"}
+    [] t = "MappingList" -> {"none", "inbound", "outbound"}
     [] t = "HTTPDomainDelete" -> Doms(s) \cup {"d1", "absent"}
     [] t \in {"DNSResolve", "DNSQuery"} -> {"explicit", "default"}
     [] t = "SendNotifyToClient" -> {"explicit"}
@@ -175,11 +193,22 @@ ObjsFor(s, t0) == LET t == Base(t0) IN
 \*   body     = client-id fields inside the JSON body (target_client_id of the tunnel request, and client_id /
 \*              listen_client_id / sender_client_id / owner_client_id / user_id on every request)
 \*   "own" = the caller's id, "victim" = another party, "third" = a client that is neither
-\* (not while a challenge is pending on c1: those states differ from their neighbours only in the handshake)
-ClaimPairs(s, t) == IF Emit /\ Policy[t].need /\ s.wv = "base" /\ cn.pend = None
+\* (with the plain authentication states of c1: the others differ from them only in the handshake history)
+ClaimPairs(s, t) == IF Emit /\ Policy[t].need /\ s.wv = "base" /\ cn.pend = None /\ ~cn.failed
                     THEN {<<"absent", "absent">>, <<"own", "absent">>, <<"victim", "absent">>,
                           <<"absent", "own">>, <<"absent", "third">>, <<"absent", "victim">>, <<"victim", "victim">>}
                     ELSE {<<"absent", "absent">>}
+
+\* one command = row x packet type x object x variant [cl, bf, cid, flt]:
+\*   cid  "reused": the CommandId (client chosen) is the one another client's command of the same type just carried
+\*   flt  "read1":  one transient failure of the storage read of the named object's main record during the command
+Plain == [cl |-> "absent", bf |-> "absent", cid |-> "fresh", flt |-> "none"]
+Variants(s, t, obj) ==
+  IF primed # <<>> THEN {[Plain EXCEPT !.cid = "reused"]}
+  ELSE {[Plain EXCEPT !.cl = cp[1], !.bf = cp[2]] : cp \in ClaimPairs(s, t)}
+       \cup (IF Base(t) \in FaultRows /\ Stored(s, obj) /\ s.wv = "base" THEN {[Plain EXCEPT !.flt = "read1"]} ELSE {})
+\* who sends the priming command: a party for whom it succeeds (the listen client for the tunnel request)
+Primer(t) == IF Base(t) = "SOCKS5TunnelRequestCmd" THEN "A" ELSE "B"
 
 HistClass == IF cn.auth = None THEN (IF ~cn.reg THEN "fresh" ELSE IF cn.pend # None THEN "challenged" ELSE "failed")
              ELSE cn.typ \o (IF cn.pend # None THEN "+challenged" ELSE IF cn.failed THEN "+failedReauth" ELSE "")
@@ -189,37 +218,54 @@ Out(h) == IF Emit THEN PrintT("BEH " \o ToJson([reg |-> IF "library" \in Sets TH
 \* ------------------------------------------------------------------------------------------
 \* handshake messages on c1 (HandleHandshake; Session.tla has the full machine)
 P1(X, t) ==
-  /\ cn.alive /\ ncmd = 0
+  /\ cn.alive /\ ncmd = 0 /\ primed = <<>>
   /\ cn.auth # None => X = Victim(cn.auth)       \* after authentication only attempts for another identity are explored, and they fail
   /\ cn' = [cn EXCEPT !.reg = TRUE, !.pend = X]
   /\ hist' = Append(hist, [op |-> "Hs", k |-> "P1", id |-> X, resp |-> None, type |-> t])
-  /\ UNCHANGED <<ctl, st, ncmd, log, outs>>
+  /\ UNCHANGED <<ctl, st, ncmd, primed, log, outs>>
 
 \* r = "valid": the HMAC of X's key over the pending challenge; "garbage": anything else
 P2(X, r, t) ==
-  /\ cn.alive /\ ncmd = 0
+  /\ cn.alive /\ ncmd = 0 /\ primed = <<>>
   /\ cn.pend = X
   /\ r = "valid" => cn.auth = None
   /\ cn' = IF r = "valid" THEN [cn EXCEPT !.auth = X, !.typ = t, !.pend = None, !.failed = FALSE]
                           ELSE [cn EXCEPT !.pend = None, !.failed = TRUE]
   /\ ctl' = IF r = "valid" /\ t = "control" THEN [ctl EXCEPT ![X] = "c1"] ELSE ctl      \* eviction of the previous holder
   /\ hist' = Append(hist, [op |-> "Hs", k |-> "P2", id |-> X, resp |-> r, type |-> t])
-  /\ UNCHANGED <<st, ncmd, log, outs>>
+  /\ UNCHANGED <<st, ncmd, primed, log, outs>>
 
-Cmd(ty, pt, cl, bf, obj) ==
+\* another client (online on its own control connection) sends a command of type ty with command id X and is
+\* answered; the actor's next command of that type carries the same id
+Prime(ty, obj) ==
+  /\ cn.alive /\ ncmd = 0 /\ primed = <<>> /\ cn.pend = None /\ ~cn.failed /\ st.wv = "base"
+  /\ Policy[ty].need /\ ~IsResp(ty) /\ ctl[Primer(ty)] = "v"
+  /\ ~(ty = "ConnectionCodeGenerate" /\ Primer(ty) \in st.gen) /\ ~(ty = "HTTPDomainCreate" /\ st.d2 # None)
+  /\ LET a == Primer(ty)
+         r == Outcome(st, a, TRUE, ty, obj, "none")
+     IN /\ st' = r.s
+        /\ log' = {[ty |-> ty, auth |-> a, e |-> e] : e \in r.effs}
+        /\ outs' = {[ty |-> ty, auth |-> a, out |-> r.out]}
+        /\ hist' = Append(hist, [op |-> "Prime", ty |-> ty, obj |-> obj, by |-> a])
+  /\ primed' = <<ty, obj>>
+  /\ UNCHANGED <<cn, ctl, ncmd>>
+
+Cmd(ty, pt, v, obj) ==
   /\ cn.alive /\ ncmd < MaxCmds
+  /\ primed # <<>> => ty = primed[1]
+  /\ (Emit /\ st.wv # "base") => cn.pend = None /\ ~cn.failed     \* world variants: with the plain authentication states
   /\ ~(ty = "ConnectionCodeGenerate" /\ cn.auth \in st.gen)
   /\ ~(ty = "HTTPDomainCreate" /\ st.d2 # None)
-  /\ LET r == Outcome(st, cn.auth, cn.reg, ty, obj)
-         h == Append(hist, [op |-> "Cmd", ty |-> ty, pt |-> pt, claims |-> cl, bf |-> bf, obj |-> obj, hc |-> HistClass,
-                            exp |-> [out |-> r.out, effs |-> r.effs]])
+  /\ LET r == Outcome(st, cn.auth, cn.reg, ty, obj, v.flt)
+         h == Append(hist, [op |-> "Cmd", ty |-> ty, pt |-> pt, claims |-> v.cl, bf |-> v.bf, cid |-> v.cid, flt |-> v.flt,
+                            obj |-> obj, hc |-> HistClass, exp |-> [out |-> r.out, effs |-> r.effs]])
      IN /\ st' = r.s
         /\ log' = {[ty |-> ty, auth |-> cn.auth, e |-> e] : e \in r.effs}
         /\ outs' = {[ty |-> ty, auth |-> cn.auth, out |-> r.out]}
         /\ cn' = IF Base(ty) = "Disconnect" /\ cn.reg THEN [cn EXCEPT !.alive = FALSE] ELSE cn
         /\ hist' = h
         /\ Out(h)
-  /\ ncmd' = ncmd + 1
+  /\ ncmd' = ncmd + 1 /\ primed' = <<>>
   /\ UNCHANGED ctl
 
 PolicyOut == IF Emit THEN PrintT("BEH " \o ToJson([policy |-> [t \in Types |-> Policy[t]],
@@ -230,11 +276,12 @@ Init ==
   /\ cn = [auth |-> None, typ |-> None, reg |-> FALSE, pend |-> None, failed |-> FALSE, alive |-> TRUE]
   /\ ctl = [X \in Clients |-> "v"]
   /\ \E w \in WVs : st = [wv |-> w, m1 |-> TRUE, m0 |-> TRUE, mz |-> TRUE, m2 |-> None, k1by |-> None, gen |-> {}, d1 |-> TRUE, d2 |-> None, tr |-> [m \in {"m1", "m2", "m0", "mz"} |-> 0]]
-  /\ ncmd = 0 /\ log = {} /\ outs = {} /\ hist = <<>>
+  /\ ncmd = 0 /\ primed = <<>> /\ log = {} /\ outs = {} /\ hist = <<>>
   /\ PolicyOut
 
 Next == \/ \E X \in Clients, t \in {"control", "tunnel"} : P1(X, t) \/ \E r \in {"valid", "garbage"} : P2(X, r, t)
-        \/ \E ty \in Rows : \E pt \in PTs(ty), cp \in ClaimPairs(st, ty), obj \in ObjsFor(st, ty) : Cmd(ty, pt, cp[1], cp[2], obj)
+        \/ \E ty \in Rows : \E pt \in PTs(ty), obj \in ObjsFor(st, ty) : \/ \E v \in Variants(st, ty, obj) : Cmd(ty, pt, v, obj)
+                                                                         \/ (pt = "cmd" /\ Prime(ty, obj))
 Spec == Init /\ [][Next]_vars
 
 \* ------------------------------------------------------------------------------------------
